@@ -173,6 +173,10 @@ struct GuestSpec {
     /// override of one import's signature / name (single-defect variants)
     bad_sig: Option<(usize, Sig)>,
     extra_import: Option<(String, String)>,
+    /// a second import of API function k (valid Wasm), with its own or another signature
+    dup: Option<(usize, Sig)>,
+    /// an import that carries API function k's name but is a global
+    nonfunc: Option<usize>,
 }
 
 fn build_guest(api: &[ApiFn], g: &GuestSpec) -> String {
@@ -189,6 +193,12 @@ fn build_guest(api: &[ApiFn], g: &GuestSpec) -> String {
         if g.foreign_between && pos == 0 {
             w.push_str("  (import \"env\" \"foreign2\" (func $foreign2))\n");
         }
+    }
+    if let Some((k, sig)) = &g.dup {
+        writeln!(w, "  (import \"{}\" \"{}\" (func $dup{}))", g.module_name, api[*k].name, sig_wat(sig)).unwrap();
+    }
+    if let Some(k) = &g.nonfunc {
+        writeln!(w, "  (import \"{}\" \"{}\" (global $nf i32))", g.module_name, api[*k].name).unwrap();
     }
     if g.foreign_memory {
         w.push_str("  (import \"env\" \"scratch\" (memory 1))\n");
@@ -218,6 +228,9 @@ fn build_guest(api: &[ApiFn], g: &GuestSpec) -> String {
             writeln!(w, "  (func (export \"t_{}\"){}{} i32.const {} call_indirect (type $t_{}))", k, sig_wat(s), gets, slot, k).unwrap();
             writeln!(w, "  (export \"api_{}\" (func $api_{}))", k, k).unwrap();
         }
+    }
+    if g.dup.is_some() {
+        w.push_str("  (export \"api_dup\" (func $dup))\n");
     }
     if g.own_stuff && g.own_state && g.memories >= 1 {
         w.push_str("  (global $g (mut i32) (i32.const 7))\n");
@@ -408,11 +421,11 @@ fn family(api: &[ApiFn]) -> Vec<(String, GuestSpec)> {
     vec![
         (
             "full surface, API order".into(),
-            GuestSpec { apis: all, foreign_first: false, foreign_between: false, own_stuff: false, memories: 1, module_name: API_MODULE.into(), own_state: false, foreign_memory: false, bad_sig: None, extra_import: None },
+            GuestSpec { apis: all, foreign_first: false, foreign_between: false, own_stuff: false, memories: 1, module_name: API_MODULE.into(), own_state: false, foreign_memory: false, bad_sig: None, extra_import: None, dup: None, nonfunc: None },
         ),
         (
             "permuted order, foreign imports, own code".into(),
-            GuestSpec { apis: perm, foreign_first: true, foreign_between: true, own_stuff: true, memories: 1, module_name: API_MODULE.into(), own_state: false, foreign_memory: false, bad_sig: None, extra_import: None },
+            GuestSpec { apis: perm, foreign_first: true, foreign_between: true, own_stuff: true, memories: 1, module_name: API_MODULE.into(), own_state: false, foreign_memory: false, bad_sig: None, extra_import: None, dup: None, nonfunc: None },
         ),
         (
             "two-import subset (log, output string)".into(),
@@ -427,6 +440,8 @@ fn family(api: &[ApiFn]) -> Vec<(String, GuestSpec)> {
                 module_name: API_MODULE.into(),
                 bad_sig: None,
                 extra_import: None,
+                dup: None,
+                nonfunc: None,
             },
         ),
     ]
@@ -830,7 +845,7 @@ fn cmd_c04(seed: u64, n: u64, ops_path: &str, impl_path: &str) -> Result<()> {
         }
         let keep = rng.range(1, api.len() as u64) as usize;
         idx.truncate(keep);
-        let g = GuestSpec { apis: idx.clone(), foreign_first: rng.below(2) == 0, foreign_between: rng.below(2) == 0, own_stuff: rng.below(2) == 0, memories: 1, module_name: API_MODULE.into(), own_state: true, foreign_memory: rng.below(3) == 0, bad_sig: None, extra_import: None };
+        let g = GuestSpec { apis: idx.clone(), foreign_first: rng.below(2) == 0, foreign_between: rng.below(2) == 0, own_stuff: rng.below(2) == 0, memories: 1, module_name: API_MODULE.into(), own_state: true, foreign_memory: rng.below(3) == 0, bad_sig: None, extra_import: None, dup: None, nonfunc: None };
         let wasm = wat::parse_str(&build_guest(&api, &g))?;
         modules.push((trampoline(&wasm)?, idx, false));
     }
@@ -881,7 +896,7 @@ fn cmd_f8() -> Result<()> {
     let api = load_api()?;
     let eng = engine()?;
     let k = api.iter().position(|a| a.name == "shopify_function_output_new_utf8_str").ok_or_else(|| anyhow!("no output_new_utf8_str"))?;
-    let g = GuestSpec { apis: vec![k], foreign_first: false, foreign_between: false, own_stuff: false, memories: 1, module_name: API_MODULE.into(), own_state: false, foreign_memory: false, bad_sig: None, extra_import: None };
+    let g = GuestSpec { apis: vec![k], foreign_first: false, foreign_between: false, own_stuff: false, memories: 1, module_name: API_MODULE.into(), own_state: false, foreign_memory: false, bad_sig: None, extra_import: None, dup: None, nonfunc: None };
     let wasm = trampoline(&wat::parse_str(&build_guest(&api, &g))?)?;
     let mut script = Script::default();
     script.resp.insert("_shopify_function_output_new_utf8_str".into(), 4u64 << 32);
@@ -954,8 +969,8 @@ fn cmd_c07(seed: u64, n: u64, ops_path: &str, impl_path: &str) -> Result<()> {
         }
         let keep = rng.range(0, api.len() as u64) as usize;
         idx.truncate(keep);
-        let mut g = GuestSpec { apis: idx.clone(), foreign_first: rng.below(2) == 0, foreign_between: rng.below(2) == 0, own_stuff: true, memories: 1, module_name: API_MODULE.into(), own_state: true, foreign_memory: false, bad_sig: None, extra_import: None };
-        let variant = i % 9;
+        let mut g = GuestSpec { apis: idx.clone(), foreign_first: rng.below(2) == 0, foreign_between: rng.below(2) == 0, own_stuff: true, memories: 1, module_name: API_MODULE.into(), own_state: true, foreign_memory: false, bad_sig: None, extra_import: None, dup: None, nonfunc: None };
+        let variant = i % 12;
         let vname = match variant {
             0 | 1 => "valid",
             2 => {
@@ -995,9 +1010,38 @@ fn cmd_c07(seed: u64, n: u64, ops_path: &str, impl_path: &str) -> Result<()> {
                 g.extra_import = Some(("env".into(), "shopify_function_input_get".into()));
                 "foreign-same-name"
             }
-            _ => {
+            8 => {
                 g.foreign_memory = true;
                 "foreign-memory"
+            }
+            9 => {
+                // the same function imported twice (valid Wasm)
+                let k = rng.below(api.len() as u64) as usize;
+                if !g.apis.contains(&k) {
+                    g.apis.push(k);
+                }
+                g.dup = Some((k, api[k].sig.clone()));
+                "duplicate-import"
+            }
+            10 => {
+                // ... the second time with another signature
+                let name = string_fns[rng.below(5) as usize];
+                let k = api.iter().position(|a| a.name == name).unwrap();
+                if !g.apis.contains(&k) {
+                    g.apis.push(k);
+                }
+                let mut s = api[k].sig.clone();
+                if rng.below(2) == 0 {
+                    s.params.pop();
+                } else {
+                    s.results = if s.results.is_empty() { vec!["i32".into()] } else { vec![] };
+                }
+                g.dup = Some((k, s));
+                "duplicate-bad-signature"
+            }
+            _ => {
+                g.nonfunc = Some(rng.below(api.len() as u64) as usize);
+                "non-function-api-name"
             }
         };
         *hist.entry(format!("variant:{}", vname)).or_insert(0) += 1;
@@ -1066,6 +1110,24 @@ fn cmd_c07(seed: u64, n: u64, ops_path: &str, impl_path: &str) -> Result<()> {
     Ok(())
 }
 
+/// run the trampoline on one WAT file and describe the outcome (ad-hoc experiments, replays)
+fn cmd_apply(path: &str) -> Result<()> {
+    let wasm = wat::parse_str(&std::fs::read_to_string(path)?)?;
+    println!("in:  {}", summary_line(&wasm)?);
+    match trampoline(&wasm) {
+        Err(e) => println!("out: reject {} ({:#})", classify(&format!("{:#}", e)), e),
+        Ok(out) => {
+            println!("out: {}", summary_line(&out)?);
+            println!("valid: {}", wasmparser::validate(&out).is_ok());
+            match trampoline(&out) {
+                Ok(second) => println!("idempotent: {}", second == out),
+                Err(e) => println!("second application fails: {:#}", e),
+            }
+        }
+    }
+    Ok(())
+}
+
 fn main() -> Result<()> {
     let args: Vec<String> = std::env::args().collect();
     match args.get(1).map(|s| s.as_str()) {
@@ -1073,6 +1135,7 @@ fn main() -> Result<()> {
         Some("c04") => cmd_c04(args[2].parse()?, args[3].parse()?, &args[4], &args[5]),
         Some("c07") => cmd_c07(args[2].parse()?, args[3].parse()?, &args[4], &args[5]),
         Some("f8") => cmd_f8(),
+        Some("apply") => cmd_apply(&args[2]),
         _ => {
             eprintln!("usage: sfw glue <out.lean> | c04 <seed> <n> <ops> <impl> | c07 <seed> <n> <ops> <impl> | f8");
             std::process::exit(2);
